@@ -133,7 +133,7 @@ func TestVerifC07(t *testing.T) {
 					case 0:
 						follow = []byte{27, 'j'}
 					case 1:
-						follow = []byte{'j', 127, 'k', 'k'}
+						follow = []byte{127, 'j', 127} // at most one move: a second one could depend on a load the first one started
 					case 2:
 						follow = []byte{':', 'x', 27, byte('1' + r.Intn(2)), '.'}
 					}
